@@ -243,7 +243,10 @@ impl Program {
 
         match instruction {
             Instruction::CalibrationDefinition(calibration) => {
-                self.calibrations.insert_calibration(calibration);
+                // A replaced calibration may have mentioned qubits that nothing else does.
+                if self.calibrations.insert_calibration(calibration).is_some() {
+                    self.rebuild_used_qubits();
+                }
             }
             Instruction::CircuitDefinition(circuit) => {
                 self.circuits.insert(circuit.name.clone(), circuit);
@@ -267,8 +270,13 @@ impl Program {
                     .insert(gate_definition.name.clone(), gate_definition);
             }
             Instruction::MeasureCalibrationDefinition(calibration) => {
-                self.calibrations
-                    .insert_measurement_calibration(calibration);
+                if self
+                    .calibrations
+                    .insert_measurement_calibration(calibration)
+                    .is_some()
+                {
+                    self.rebuild_used_qubits();
+                }
             }
             Instruction::WaveformDefinition(WaveformDefinition { name, definition }) => {
                 self.waveforms.insert(name, definition);
